@@ -355,10 +355,9 @@ end Pyunicorn.Access
 /-! ## `while` kernels that index before testing the bound -/
 namespace Pyunicorn.WhileKernels
 
-/-- the scan `while recurrence[l, sorted_neighbors[l, k]] == 1 and k < n_time: k += 1`
-never moves `k` beyond `n_time`: the only column index it can present to
-`sorted_neighbors[l, ·]` outside `[0, n_time)` is `n_time` itself (one past the
-end), where the checked buffer access raises IndexError. -/
+/-- the scan `while k < n_time and recurrence[l, sorted_neighbors[l, k]] == 1: k += 1`
+never moves `k` beyond `n_time`, and (since the bound is tested first) presents only
+columns `k < n_time` to `sorted_neighbors[l, ·]`. -/
 theorem scan_le (recur sn : IMat) (l : Int) (nT : Nat) (f k0 k : Nat)
     (h : scan recur sn l nT f k0 = some k) : k0 ≤ k ∧ (k0 ≤ nT → k ≤ nT) := by
   induction f generalizing k0 with
@@ -366,15 +365,16 @@ theorem scan_le (recur sn : IMat) (l : Int) (nT : Nat) (f k0 k : Nat)
   | succ f ih =>
     unfold scan at h
     split at h
-    · cases h
-    · split at h
+    · rename_i hk
+      split at h
       · cases h
       · split at h
-        · rename_i hc
-          have hk : k0 < nT := by simp at hc; exact hc.2
-          obtain ⟨h1, h2⟩ := ih _ h
-          exact ⟨by omega, fun _ => h2 (by omega)⟩
-        · cases h; exact ⟨Nat.le_refl _, id⟩
+        · cases h
+        · split at h
+          · obtain ⟨h1, h2⟩ := ih _ h
+            exact ⟨by omega, fun _ => h2 (by omega)⟩
+          · cases h; exact ⟨Nat.le_refl _, id⟩
+    · cases h; exact ⟨Nat.le_refl _, id⟩
 
 theorem visScan_mem (cond : Nat → Bool) (j f k x : Nat) (h : x ∈ visScan cond j f k) :
     k ≤ x ∧ (k ≤ j → x ≤ j) := by
@@ -411,9 +411,9 @@ theorem visIndices_lt (cond : Nat → Nat → Nat → Bool) (N : Nat) :
 
 example : visIndices (fun _ _ _ => true) 4 ≠ [] := by decide
 
-/-- dense neighbourhoods: the scan runs off the table and the kernel raises
-IndexError instead of reading `sorted_neighbors[l, n_time]` -/
-example : adaptive 2 2 [[0, 1], [1, 0]] [0, 1] [[0, 0], [0, 0]] = none := by decide
+/-- dense neighbourhoods: the scan stops at `k = n_time` without reading
+`sorted_neighbors[l, n_time]` and no link is added (the pinned kernel raised IndexError here) -/
+example : adaptive 2 2 [[0, 1], [1, 0]] [0, 1] [[0, 0], [0, 0]] = some [[0, 1], [1, 0]] := by decide
 example : adaptive 3 1 [[0, 1, 2], [1, 0, 2], [2, 1, 0]] [0, 1, 2] [[0,0,0],[0,0,0],[0,0,0]]
     = some [[0, 1, 1], [1, 0, 1], [1, 1, 0]] := by decide
 
